@@ -76,6 +76,21 @@ fn main() {
                 None => 2,
             }
         }
+        "render" => {
+            // development aid: print the case a replay file denotes
+            let id = args[2].clone();
+            let file = PathBuf::from(&args[3]);
+            with_big_stack(move || {
+                let p = props::by_id(&id).expect("property");
+                let _ = p.setup(Tier::Quick);
+                engine::sut::install_panic_hook();
+                let v: serde_json::Value = serde_json::from_slice(&std::fs::read(&file).expect("read")).expect("json");
+                let (verdict, r) = runner::run_replay_value_rendered(p.as_ref(), &v, true);
+                println!("{}", serde_json::to_string_pretty(&r).unwrap());
+                println!("{:?}", verdict);
+                0
+            })
+        }
         "build-sut" => match engine::realbin::build(false).and_then(|_| engine::realbin::build(true)) {
             Ok(p) => {
                 println!("built {}", p.display());
@@ -86,6 +101,28 @@ fn main() {
                 2
             }
         },
+        "describe" => {
+            // machine-readable description of every check (source of DESIGN.md appendix A)
+            let mut out = Vec::new();
+            for p in props::all() {
+                out.push(serde_json::json!({
+                    "id": p.id(),
+                    "level": p.level(),
+                    "rule": p.rule(),
+                    "assumptions": p.assumptions(),
+                    "random_cases": [p.random_cases(Tier::Quick), p.random_cases(Tier::Thorough)],
+                    "enumerated": [p.enumerated(Tier::Quick), p.enumerated(Tier::Thorough)],
+                    "exhaustive": [p.exhaustive(Tier::Quick), p.exhaustive(Tier::Thorough)],
+                    "tape_len": p.tape_len(Tier::Quick),
+                    "workers": p.workers(Tier::Quick),
+                    "fuzz_runs_per_job": p.fuzz_runs(Tier::Thorough),
+                    "fuzz_mode": if p.fuzz_runs(Tier::Thorough) == 0 { "none" } else if p.fuzz_raw() { "raw" } else { "tape" },
+                    "crash_is_violation": p.crash_is_violation(),
+                }));
+            }
+            println!("{}", serde_json::to_string_pretty(&out).unwrap());
+            0
+        }
         "list" => {
             for p in props::all() {
                 println!("{}", p.id());
